@@ -37,7 +37,7 @@ from vlib.models import c06_request as M
 
 LEVEL = 'exploration'
 SHARDS = {'quick': 4, 'thorough': 16}
-BUDGET = {'quick': 15, 'thorough': 150}
+BUDGET = {'quick': 20, 'thorough': 150}
 
 DEFAULT_UA = 'falcon-client/' + falcon.__version__      # documented default of the simulators
 
@@ -843,6 +843,10 @@ def leg_sim(req, asgi):
         cap['style'].append('inline-query-with-qmark')
     if kw.get('params'):
         cap['style'].append('params-dict')
+    if isinstance(kw.get('port'), str):
+        cap['style'].append('port-str')
+    if isinstance(kw.get('body'), str):
+        cap['style'].append('body-str')
     hv = list(kw['headers'].values()) if isinstance(kw['headers'], dict) else [v for _, v in kw['headers']]
     if any(v is not None and v != v.strip() for v in hv):
         cap['style'].append('ows-header-value')
@@ -1480,6 +1484,7 @@ CLASS_FLOORS = ['cls.path-pct-utf8', 'cls.path-invalid-utf8', 'cls.path-trailing
                 'resp.body.stream.set_stream', 'read.read', 'read.readn', 'read.iter', 'read.media', 'read.multipart',
                 'fam.E6.sim-style', 'fam.E6.sim-query-style', 'sim.style.inline-query', 'sim.style.inline-query-with-qmark',
                 'sim.style.params-dict', 'fam.E6.sim-ows', 'sim.style.ows-header-value', 'sim.style.none-header-value',
+                'fam.E3.fwd-kinds', 'fam.E6.sim-arg-forms', 'sim.style.port-str', 'sim.style.body-str',
                 'fam.E7.middleware', 'mw.mode.dependent', 'mw.short-circuit.0.request', 'mw.short-circuit.1.request',
                 'mw.short-circuit.3.request', 'mw.short-circuit.0.resource', 'mw.fault.request.http', 'mw.fault.resource.exc',
                 'mw.fault.response.custom', 'resp.body.stream.file_short', 'resp.body.stream.set_stream_short',
@@ -1508,7 +1513,10 @@ def run(rec):
     if rec.shard == 0:
         rec.note('bounded-exhaustive families enumerated completely: %d cases over all shards' % idx)
     rng = rec.rng
-    while rec.budget_ok(0.9):
+    batches = 0
+    # the first batches are sized by count (so the seeded random part exists even on a badly loaded machine), the rest by budget
+    while batches < 3 or rec.budget_ok(0.9):
+        batches += 1
         for _ in range(20):
             req = G.rand_request(rng, DEFAULT_UA)
             one(rec, req)
